@@ -2,8 +2,8 @@ package main
 
 import (
 	"go/ast"
-	"go/types"
 	"go/token"
+	"go/types"
 	"strings"
 )
 
